@@ -24,6 +24,7 @@ class _Differ:
         self.dep = {}
         c = _ctx.current()
         self.defs = getattr(c, "_uf_defs", {})
+        self.roots = getattr(c, "_root_defs", {})
 
     def depends(self, t):
         k = t.get_id()
@@ -43,6 +44,8 @@ class _Differ:
                         self.dep[uk] = True
                     elif uk in self.defs:
                         self.dep[uk] = self.depends_R(self.defs[uk])
+                    elif uk in self.roots:
+                        self.dep[uk] = self.depends(self.roots[uk][0])
                     else:
                         self.dep[uk] = False
                     continue
@@ -93,6 +96,11 @@ class _Differ:
                 res = _ONE
             elif k in self.defs:
                 res = self.dR(self.defs[k])
+            elif k in self.roots:
+                # s^m = u  ->  ds = du / (m s^(m-1))
+                u, m = self.roots[k]
+                sR = R(n=t, d=())
+                res = self.dt(u) / (m * (sR ** (m - 1)))
             else:
                 res = _ZERO
         elif kind == z3.Z3_OP_ADD:
